@@ -101,6 +101,23 @@ Theorem C08_injective_hash_exists : forall a b, hash_pair a = hash_pair b -> a =
 Proof. exact hash_pair_inj. Qed.
 Print Assumptions C08_injective_hash_exists.
 
+(* Persistence: the minimum delay changes only by set_min_delay, and any amount of time
+   passing - in any number of steps of any length - leaves every stored ready ledger, the
+   minimum delay and the target's counters exactly as they are (a call touches only the id it
+   names: C08_call_touches_only_its_id above). *)
+Theorem C08_min_delay_changes_only_by_set_min_delay :
+  forall (hash : op -> id) s c,
+    min_delay (tls (fst (step hash s c))) <> min_delay (tls s) -> exists d, c = SetMinDelay d.
+Proof. exact min_delay_frame. Qed.
+Print Assumptions C08_min_delay_changes_only_by_set_min_delay.
+Theorem C08_time_changes_nothing_stored :
+  forall (hash : op -> id) cs s,
+    forallb is_advance cs = true ->
+    marks (tls (run hash s cs)) = marks (tls s) /\ min_delay (tls (run hash s cs)) = min_delay (tls s) /\
+    runs (run hash s cs) = runs s /\ now (tls s) <= now (tls (run hash s cs)).
+Proof. exact time_changes_nothing_stored. Qed.
+Print Assumptions C08_time_changes_nothing_stored.
+
 (* The monitor run on the implementation's traces (Run/C08.v: the property over observed
    calls, outcomes and getter values only) accepts every run of the model, and the model's
    diff with itself is empty - for every start ledger >= 2, universe of ids and tags, and
